@@ -612,11 +612,11 @@ func (bridge *ExprBridge) convertLikeToFunction(field, pattern string) string {
 		return fmt.Sprintf("%s contains '%s'", field, inner)
 	} else if strings.HasPrefix(pattern, "%") && len(pattern) > 1 {
 		// %pattern -> endsWith操作符
-		suffix := strings.TrimPrefix(pattern, "%")
+		suffix := strings.TrimLeft(pattern, "%") // all leading wildcards ('%%abc' means the same as '%abc')
 		return fmt.Sprintf("%s endsWith '%s'", field, suffix)
 	} else if strings.HasSuffix(pattern, "%") && len(pattern) > 1 {
 		// pattern% -> startsWith操作符
-		prefix := strings.TrimSuffix(pattern, "%")
+		prefix := strings.TrimRight(pattern, "%") // all trailing wildcards ('abc%%' means the same as 'abc%')
 		return fmt.Sprintf("%s startsWith '%s'", field, prefix)
 	} else if pattern == "%" {
 		// 单独的%匹配任何字符串
